@@ -331,7 +331,8 @@ func C09() int {
 			progs[name] = p
 			files[name] = withNonce(PrintProg(*p), c.nonce[l.id])
 			if l.twinOf != 0 {
-				files[name] = fmt.Sprintf("// the same statements as l%d.tsh, another file\n", l.twinOf) + files[name]
+				// (a comment at the end of the first line: same statements, same line structure, other bytes)
+				files[name] = strings.Replace(files[name], "\n", fmt.Sprintf(" // the same statements as l%d.tsh, another file\n", l.twinOf), 1)
 			}
 			h := sha256.Sum256([]byte(files[name]))
 			cls := "letter"
